@@ -377,10 +377,33 @@ Status findSequencesOnDisk(FileSequences &seqs,
                   strings::ends_with(name, match.ext))) {
                 continue;
             }
+            if (name.length() < match.base.length() + match.ext.length()) {
+                // the prefix and the suffix overlap
+                continue;
+            }
             match.range = name.substr(
                     match.base.length(),
                     name.length()-match.base.length()-match.ext.length());
-            // test
+
+            // what sits between the basename and the extension
+            // has to be a frame number
+            {
+                size_t i = 0;
+                const size_t n = match.range.length();
+                if (n > 0 && match.range[0] == '-') {
+                    i = 1;
+                }
+                bool isNumber = (i < n);
+                for (; i < n; ++i) {
+                    if (match.range[i] < '0' || match.range[i] > '9') {
+                        isNumber = false;
+                        break;
+                    }
+                }
+                if (!isNumber) {
+                    continue;
+                }
+            }
 
         } else {
             // otherwise, we need to do some tests on the path and figure
